@@ -2,6 +2,8 @@
 
 from __future__ import annotations
 
+import itertools
+
 import numpy as np
 
 from .. import history, sim, tables
@@ -10,8 +12,11 @@ from ..common import V, samples_of
 NX = 6
 PROBES = np.array([-0.5, 0.0, 1e-3, 0.37, 1.0, 2.0, 2.5, 3.0, 10.0])
 SIM_OPS = {"simA", "simA'", "simE", "simB", "simC", "simD", "simA+S1", "simB+S2"}
+FAIL_OPS = {"simB+bad"}  # a simulate call that is rejected (schedule of the wrong length): must leave no trace
 SET_OPS = {"setF", "setP"}  # public dataclass fields reassigned on the live object (toggles)
-ALT = {"T_ship_gas": ("S_zdip", 6500.0), "S_zdip": ("T_ship_gas", 7500.0), "S_ideal": ("S_zlin", 7000.0)}
+# setF: T_ship_gas changes fluid AND initial pressure; S_zdip changes the fluid only (same initial pressure: a key made
+# of all scalar fields would not notice)
+ALT = {"T_ship_gas": ("S_zdip", 6500.0), "S_zdip": ("T_ship_gas", 7000.0), "S_ideal": ("S_zlin", 7000.0)}
 CONFIGS = [  # (class, table, p_f, p_i)
     ("single", "T_ship_gas", 1000.0, 8000.0),
     ("single", "S_zdip", 6000.0, 7000.0),
@@ -19,25 +24,32 @@ CONFIGS = [  # (class, table, p_f, p_i)
 ]
 
 
-def grids():
-    return {"A": sim.time_grid("quadratic", 8, 2.0), "B": sim.time_grid("uniform", 8, 3.0),
+def big(cfg):
+    return cfg is not None and len(cfg) > 4 and cfg[4] == "big"
+
+
+def grids(cfg=None):
+    n = 128 if big(cfg) else 8  # the 'big' configuration: 60 nodes, 128 levels (staleness gated on size)
+    # B has A's length AND A's end points: only the interior differs
+    return {"A": sim.time_grid("quadratic", n, 2.0), "B": sim.time_grid("uniform", n, 2.0),
             # A' = A stretched by 4 ppm: same length, inside any default np.isclose band, a different run
-            "A'": sim.time_grid("quadratic", 8, 2.0) * (1 + 4e-6),
+            "A'": sim.time_grid("quadratic", n, 2.0) * (1 + 4e-6),
             "E": np.array([0.0]),  # a single time: no step is taken, the stored run is the initial state alone
             "C": sim.time_grid("geometric", 11, 0.0),
             "D": np.concatenate([[0.0], np.geomspace(0.5, 1e7, 15)])}  # runs to complete depletion (profile stops moving)
 
 
-def schedules(p_f, p_i):
-    return {"S1": np.array([p_f + (p_i - p_f) * f for f in (0.5, 0.5, 0.4, 0.3, 0.3, 0.2, 0.1, 0.0)]),
-            "S2": np.array([p_f + (p_i - p_f) * f for f in (0.0, 0.6, 0.6, 0.2, 0.2, 0.9, 0.1, 0.1)])}
+def schedules(p_f, p_i, n=8):
+    f1 = np.interp(np.linspace(0, 7, n), np.arange(8), (0.5, 0.5, 0.4, 0.3, 0.3, 0.2, 0.1, 0.0))
+    f2 = np.interp(np.linspace(0, 7, n), np.arange(8), (0.0, 0.6, 0.6, 0.2, 0.2, 0.9, 0.1, 0.1))
+    return {"S1": p_f + (p_i - p_f) * f1, "S2": p_f + (p_i - p_f) * f2}
 
 
 def alphabet(cls, with_set=True):
     if cls == "ideal":
         base = ["simA", "simA'", "simE", "simB", "simC", "simD", "rf", "rf_density", "interp"]
     else:
-        base = ["simA", "simA'", "simE", "simB", "simC", "simD", "simA+S1", "simB+S2", "rf", "rf_density", "interp"]
+        base = ["simA", "simA'", "simE", "simB", "simC", "simD", "simA+S1", "simB+S2", "simB+bad", "rf", "rf_density", "interp"]
     return base + (["setF", "setP"] if with_set else [])
 
 
@@ -45,7 +57,7 @@ def fresh(cfg, pre=()):
     """A new object; `pre` is a sequence of set-ops whose effect is folded into the CONSTRUCTOR arguments
     (not replayed as assignments: an object that caches something at construction must not hide a stale
     cache from the reference)."""
-    cls, table, p_f, p_i = cfg
+    cls, table, p_f, p_i = cfg[:4]
     from bluebonnet.flow import IdealReservoir, SinglePhaseReservoir  # noqa: PLC0415
 
     if sum(1 for o in pre if o == "setF") % 2:
@@ -53,16 +65,16 @@ def fresh(cfg, pre=()):
     if sum(1 for o in pre if o == "setP") % 2:
         p_f = 0.5 * p_f
     fl = tables.fluid(table, p_i)
-    return (IdealReservoir if cls == "ideal" else SinglePhaseReservoir)(NX, p_f, p_i, fl)
+    return (IdealReservoir if cls == "ideal" else SinglePhaseReservoir)(60 if big(cfg) else NX, p_f, p_i, fl)
 
 
 def apply(obj, op, cfg):
     """Apply one op; returns the observation (value or ('raise', ExceptionType))."""
-    g = grids()
+    g = grids(cfg)
     if op == "setF":  # toggle between the configured fluid / initial pressure and an alternative pair
-        cls, table, p_f, p_i = cfg
+        cls, table, p_f, p_i = cfg[:4]
         t2, p2 = ALT[table]
-        if obj.pressure_initial == p_i:
+        if obj.fluid is tables.fluid(table, p_i):  # (tables.fluid caches one object per (table, p_i))
             obj.fluid, obj.pressure_initial = tables.fluid(t2, p2), p2
         else:
             obj.fluid, obj.pressure_initial = tables.fluid(table, p_i), p_i
@@ -73,11 +85,15 @@ def apply(obj, op, cfg):
         obj.pressure_fracface = 0.5 * cfg[2] if at_base else cfg[2]
         return ("set", obj.pressure_fracface)
     try:
+        if op in FAIL_OPS:  # grid B with a schedule that is one entry short: must be rejected and change nothing
+            t = g["B"].copy()
+            obj.simulate(t, schedules(cfg[2], cfg[3], len(t))["S2"][:-1].copy())
+            return ("sim", obj.time.copy(), obj.pseudopressure.copy())
         if op in SIM_OPS:
             name, _, s = op.partition("+")
             t = g[name[3:]].copy()
             if s:
-                obj.simulate(t, schedules(cfg[2], cfg[3])[s].copy())
+                obj.simulate(t, schedules(cfg[2], cfg[3], len(t))[s].copy())
             else:
                 obj.simulate(t)
             return ("sim", obj.time.copy(), obj.pseudopressure.copy())
@@ -117,10 +133,27 @@ def check_transition(hist, op, cfg):
     """Differential oracle: the object after hist+[op] against a fresh object that executes
     only the latest simulate and what followed it."""
     full = hist + [op]
-    case = {"config": list(cfg), "history": full}
+    case = {"config": list(cfg), "history": list(full)}
+    if op in FAIL_OPS:
+        # the rejected call: an error, and the object is exactly what it was before the call
+        live, obs_live = build(full, cfg)
+        before, _ = build(hist, cfg)
+        out = []
+        if obs_live[-1][0] != "raise":
+            out.append(V("rejected-simulate/accepted", f"after {hist}, simulate with a schedule one entry short was accepted",
+                         case=case))
+        elif key(live) != key(before):
+            d_l, d_b = vars(live), vars(before)
+            changed = sorted(k_ for k_ in set(d_l) | set(d_b) if not history.same(d_l.get(k_), d_b.get(k_)))
+            out.append(V("rejected-simulate/left-a-trace", f"after {hist}, the rejected simulate (schedule one entry short) "
+                         f"raised {obs_live[-1][1]} but changed the object: {changed} differ from before the call - later "
+                         "results would mix two runs", case=case))
+        return out
+    full_all = full
+    full = [o for o in full if o not in FAIL_OPS]  # rejected calls leave no trace: the reference never makes them
     sims = [i for i, o in enumerate(full) if o in SIM_OPS]
     k = sims[-1] if sims else 0
-    live, obs_live = build(full, cfg)
+    live, obs_live = build(full_all, cfg)
     # the reference object executes only the latest simulate, the *recovery* calls made after it
     # (interpolator calls are pure reads and are dropped) and the call under observation
     pre = [o for o in full[:k] if o in SET_OPS]  # folded into the fresh object's constructor arguments
@@ -132,7 +165,7 @@ def check_transition(hist, op, cfg):
     out = []
     if not obs_equal(obs_live[-1], obs_ref[-1]):
         out.append(V("stale-state/returned-value",
-                     f"after history {full} the last call observes {_short(obs_live[-1], obs_ref[-1])}; a fresh "
+                     f"after history {full_all} the last call observes {_short(obs_live[-1], obs_ref[-1])}; a fresh "
                      f"object running only {ref_hist} observes {_short(obs_ref[-1], obs_live[-1])}",
                      case=case, observed=_short(obs_live[-1], obs_ref[-1]),
                      expected=_short(obs_ref[-1], obs_live[-1]), tol=0))
@@ -259,6 +292,40 @@ def explore_pair(case):
             "reps": [], "outcome": ["pair-consistent" if not viol else "instances-share-state"]}
 
 
+def observe(cfg, hist):
+    """Last observation of a history on a fresh object, as a flat float array (called in fresh interpreters by
+    common.purity_violations: the same list of histories in three orders, one interpreter per order)."""
+    _, obs = build(list(hist), tuple(cfg))
+    o = obs[-1]
+    if o[0] == "raise":
+        raise RuntimeError(o[1])
+    return np.concatenate([np.asarray(x, dtype=float).ravel() for x in o[1:]])
+
+
+def explore_orders(case):
+    """Process-global state (a module-level memo keyed without the fluid, a class attribute) is invisible to every
+    oracle above, because live and reference objects share the process.  Here every history of length <= depth over a
+    reduced alphabet is run in fresh interpreters in three different orders; each must observe the same thing."""
+    from ..common import purity_violations  # noqa: PLC0415
+
+    cfg = list(case["config"])
+    letters = ["simA", "simB", "setF", "setP", "rf"]
+    hists = [list(h) for k in range(1, case["depth"] + 1) for h in itertools.product(letters, repeat=k)
+             if h[-1] in ("simA", "simB", "rf") and any(x.startswith("sim") for x in h)]
+    calls = [("history " + "->".join(h), "mc.props.c10:observe", (cfg, h)) for h in hists]
+    # orders: forward, reverse, and every history that reassigns a field ON ITS OWN in a fresh interpreter (it is the
+    # only user of its fluid / frac-face pressure, so in any joint order some other history populates global state first)
+    n = len(calls)
+    orders = [list(range(n)), list(range(n - 1, -1, -1))] + [[i] for i, h in enumerate(hists) if any(x in SET_OPS for x in h)]
+    viol = purity_violations(calls, orders=orders, what="observation")
+    for v in viol:
+        v["oracle"] = "process-global-state"
+        v["case"] = {"orders": True, "config": cfg, "depth": case["depth"], "call": v["case"]["call"]}
+    return {"violations": viol[:3], "reps": [], "outcome": ["order-independent" if not viol else "process-global-state"],
+            "stats": {"states": len(hists), "transitions": 2 * len(hists) + len(orders) - 2, "depth_reached": case["depth"],
+                      "frontier_closed_before_bound": True}}
+
+
 def explore_tlc(case):
     from .. import tlc_conf  # noqa: PLC0415
 
@@ -272,6 +339,8 @@ def explore_tlc(case):
 def explore_any(case):
     if case.get("tlc"):
         return explore_tlc(case)
+    if case.get("orders"):
+        return explore_orders(case)
     return explore_pair(case) if "configs" in case else explore_config(case)
 
 
@@ -281,7 +350,12 @@ def run(ctx):
     pd = 5 if ctx.thorough else 4
     cs += [{"configs": [list(CONFIGS[0]), list(CONFIGS[0])], "depth": pd},
            {"configs": [list(CONFIGS[0]), list(CONFIGS[2])], "depth": pd}]
+    cs += [{"configs": [list(CONFIGS[0]), list(CONFIGS[1])], "depth": pd}]  # two different single-phase fluids
     cs += [{"tlc": True, "config": list(CONFIGS[0])}, {"tlc": True, "config": list(CONFIGS[1])}]
+    cs += [{"orders": True, "config": list(CONFIGS[0]), "depth": 3 if ctx.thorough else 2},
+           {"orders": True, "config": list(CONFIGS[1]), "depth": 2}]
+    # 60 nodes, 128 levels (staleness gated on the size of the run), explored to depth 2 / 3
+    cs += [{"config": list(CONFIGS[0]) + ["big"], "depth": 3 if ctx.thorough else 2}]
     res = ctx.pmap(explore_any, cs, chunksize=1)
     per = [{"config": c.get("config") or c["configs"], **r["stats"]} for c, r in zip(cs, res) if "stats" in r]
     st = sum(p["states"] for p in per)
